@@ -111,6 +111,20 @@ PayDrift(e) ==
                          \o PayId(e) \o "|got:" \o WireStr(e.g) \o "|want:" \o WireStr(PaySpec(e)))
     \cup If(e.g.sent /\ (e.attempts # 1 \/ ~e.pre_ok \/ e.ev # "Event_ActionSucceeded"), "pay-result|" \o PayId(e) \o "|ev=" \o e.ev)
 
+(* ---- kind = retry: the tip moves between the attempts ---- *)
+IntSeqStr(q) == IF q = <<>> THEN "-" ELSE FoldLeft(LAMBDA a, x : a \o (IF a = "" THEN "" ELSE ",") \o S(x), "", q)
+RetryId(e) == ActId(e) \o "|heights=" \o IntSeqStr(e.heights) \o "|fails=" \o S(e.fails)
+RetrySpec(e) == RetryTips(e.chain, e.ver, e.startSet, e.start, e.heights, e.fails)
+RetryViol(e) ==
+    \* every attempt that reached the node, judged at the tip of that moment
+    If(IsLiq7(e) /\ \E i \in 1..Len(e.tips) : ~WindowOpen(e.startSet, e.start, e.tips[i], LiqWindow),
+       "C04|pays-after-window|" \o RetryId(e) \o "|paid-at=" \o IntSeqStr(e.tips))
+    \cup If(IsLiq6(e) /\ e.tips # <<>>, "C04|legacy|" \o RetryId(e) \o "|paid-at=" \o IntSeqStr(e.tips))
+    \cup If(IsLiq7(e) /\ e.g.sent /\ ~P_C04_delta(PayCase(e), e.g), "C04|pay-delta|" \o RetryId(e) \o "|" \o WireStr(e.g))
+RetryDrift(e) ==
+    If(e.tips # RetrySpec(e), "retry|" \o RetryId(e) \o "|paid-at=" \o IntSeqStr(e.tips) \o "|want=" \o IntSeqStr(RetrySpec(e)))
+    \cup If(e.exhausted, "attempts-exhausted|" \o RetryId(e))
+
 Viol(e) ==
     CASE e.kind = "route"   -> RouteViol(e)
       [] e.kind = "limit"   -> LimitViol(e)
@@ -119,6 +133,7 @@ Viol(e) ==
       [] e.kind = "invoice" -> InvoiceViol(e)
       [] e.kind = "await"   -> AwaitViol(e)
       [] e.kind = "pay"     -> PayViol(e)
+      [] e.kind = "retry"   -> RetryViol(e)
       [] OTHER -> {"unknown-kind|" \o e.kind}
 Drift(e) ==
     CASE e.kind = "route"   -> RouteDrift(e)
@@ -128,6 +143,7 @@ Drift(e) ==
       [] e.kind = "invoice" -> InvoiceDrift(e)
       [] e.kind = "await"   -> AwaitDrift(e)
       [] e.kind = "pay"     -> PayDrift(e)
+      [] e.kind = "retry"   -> RetryDrift(e)
       [] OTHER -> {}
 
 \* Bitcoin: invoice CLTVs the real AwaitTxConfirmationAction accepted, and the
@@ -136,7 +152,10 @@ Drift(e) ==
 IsBtc7(e) == e.chain = "btc" /\ e.ver = 7
 Acc(e)  == IF e.kind = "await" /\ IsBtc7(e) /\ e.out = "watch" THEN {<<e.backend, e.cltv>>} ELSE {}
 Pays(e) == IF e.kind = "pay" /\ IsBtc7(e) /\ e.g.sent /\ e.start # 0
-           THEN {[backend |-> e.backend, dp |-> e.now - e.start, cltv |-> e.cltv, permits |-> e.g.delta]} ELSE {}
+           THEN {[backend |-> e.backend, dp |-> e.now - e.start, cltv |-> e.cltv, permits |-> e.g.delta]}
+           ELSE IF e.kind = "retry" /\ IsBtc7(e) /\ e.g.sent
+           THEN {[backend |-> e.backend, dp |-> e.tips[i] - e.start, cltv |-> e.cltv, permits |-> e.g.delta] : i \in 1..Len(e.tips)}
+           ELSE {}
 
 Step == /\ l <= Len(Trace)
         /\ LET e == Trace[l] IN
